@@ -1654,7 +1654,7 @@ def crcvReqs (single : Bool) (cap : Nat) (junk : UInt8) : Option Crcv → List R
     (match reqOf (crcvStep single cap junk st r).2 with | some q => [q] | none => []) ++
       crcvReqs single cap junk (crcvStep single cap junk st r).1 rest
 
-/-- ROUND R09d (fix 1edd277).  For EVERY sequence of 2.xx responses (any Block2 options `coap_get_block_b` accepts: NUM has
+/-- ROUND R09d (fix 70f6ff3).  For EVERY sequence of 2.xx responses (any Block2 options `coap_get_block_b` accepts: NUM has
 at most 20 bits, SZX ≤ 6 - hostile or not), from every state of the lg_crcv, in both delivery modes: every request
 libcoap sends for a further block names a block number of at most 20 bits, in the block size of the response it
 answers, at an offset below 2^32.  Before the fix a response with NUM 0xFFFFF and M set was answered with a request for
